@@ -252,7 +252,7 @@ fn check_crash_prefix_order(
                         bad = Some(format!(
                             "after a crash at commit {k} (inputs of session \
                              {j}: {:?}; nodes asked {}): query {k2:?} = {v}, from scratch \
-                             {want:?}",
+                             {want:?} <<node={jn};got={v};session={j};top_down={top_down}>>",
                             shown.inputs,
                             if top_down { "top-down" } else { "bottom-up" }
                         ));
@@ -288,6 +288,60 @@ fn check_crash_prefix_order(
         })
     }))
     .map_err(|f| format!("{:?}: {}", f.kind, f.msg))
+}
+
+/// Classification of a wrong answer of a recovered engine by the shape of
+/// the history up to the recovered session (see `hist::classify`).
+fn classify_recovered(p: &Program, h: &[Op], act_log: &[(usize, Key)], msg: &str) -> Vec<String> {
+    let Some(meta) = msg.split("<<").nth(1).and_then(|s| s.split(">>").next()) else {
+        return vec![];
+    };
+    let mut node = 0u8;
+    let mut got = 0;
+    let mut session = 0usize;
+    let mut top_down = false;
+    for kv in meta.split(';') {
+        let mut it = kv.split('=');
+        match (it.next(), it.next()) {
+            (Some("node"), Some(v)) => node = v.parse().unwrap_or(0),
+            (Some("got"), Some(v)) => got = v.parse().unwrap_or(0),
+            (Some("session"), Some(v)) => session = v.parse().unwrap_or(0),
+            (Some("top_down"), Some(v)) => top_down = v == "true",
+            _ => {}
+        }
+    }
+    let fl = hist::flatten(h);
+    let (_, at) = hist::snapshots(p, &fl);
+    let cut = at.iter().position(|a| *a > session).unwrap_or(fl.len());
+    let n = p.nodes.len() as u8;
+    let order: Vec<Key> =
+        if top_down { (0..n).rev().map(Key::C).collect() } else { (0..n).map(Key::C).collect() };
+    let mut hh: Vec<Op> = fl[..cut].to_vec();
+    // restarts / drains do not matter for the shape
+    hh.retain(|o| !matches!(o, Op::Restart | Op::Drain));
+    let removed_before = |i: usize| fl[..i].iter().filter(|o| matches!(o, Op::Restart | Op::Drain)).count();
+    let acts: Vec<(usize, Key)> = act_log
+        .iter()
+        .filter(|(s, _)| *s < cut)
+        .map(|(s, k)| (*s - removed_before(*s), *k))
+        .collect();
+    let fstep = hh.len();
+    hh.push(Op::Query(order.clone()));
+    let pseudo = hist::Finding {
+        property: "C01",
+        step: fstep,
+        fstep,
+        what: String::new(),
+        key: Some(Key::C(node)),
+        got: Some(got),
+        reader: None,
+        root: order.first().copied(),
+        stale_dep: None,
+    };
+    hist::classify(p, &hh, &acts, &pseudo)
+        .into_iter()
+        .filter(|t| t.starts_with("F10"))
+        .collect()
 }
 
 pub fn check(property: &'static str) -> i32 {
@@ -415,12 +469,25 @@ pub fn check(property: &'static str) -> i32 {
                                         &p, &dbrun.log, k, &dbrun.snapshots, c,
                                     ) {
                                         Ok(None) => {}
-                                        Ok(Some(m)) => extra.push(hist::Finding {
-                                            property: "C08",
-                                            step: h.len().saturating_sub(1),
-                                            what: m,
-                                            ..Default::default()
-                                        }),
+                                        Ok(Some(m)) => {
+                                            // a wrong answer that the engine would give
+                                            // WITHOUT a crash as well (same history up
+                                            // to the recovered session, same order of
+                                            // asking) is the known incremental finding,
+                                            // not a crash-consistency one: classify it
+                                            // by the shape of the history
+                                            let known = classify_recovered(&p, &h, &dbrun.run.act_log, &m);
+                                            extra.push(hist::Finding {
+                                                property: "C08",
+                                                step: h.len().saturating_sub(1),
+                                                what: if known.is_empty() {
+                                                    m
+                                                } else {
+                                                    format!("{m} [known-shape: {}]", known.join(","))
+                                                },
+                                                ..Default::default()
+                                            })
+                                        }
                                         Err(e) => extra.push(hist::Finding {
                                             property: "C08",
                                             step: h.len().saturating_sub(1),
@@ -458,6 +525,11 @@ pub fn check(property: &'static str) -> i32 {
                             }
                             let mut tags =
                                 hist::classify(&p, &case.hist, &case.acts, f);
+                            if let Some(ks) = f.what.split("[known-shape: ").nth(1) {
+                                for t in ks.trim_end_matches(']').split(',') {
+                                    tags.push(t.to_string());
+                                }
+                            }
                             tags.push(f.property.to_string());
                             let idx: Vec<usize> = case
                                 .hist
